@@ -495,7 +495,7 @@ class Program:
 
             def bulk():
                 # a long protocol (hundreds to thousands of records, around block sizes an implementation may use)
-                op = {"op": "bulk_comment", "n": rng.choice([255, 257, 999, 1000, 1001, 1023, 1025, 2049, 4097]),
+                op = {"op": "bulk_comment", "n": rng.choice([255, 257, 999, 1000, 1001, 1023, 1025, 2049, 4097, 8193, 10001, 20001, 32769]),
                       "text": rng.choice(["step ", "µ"]), "width": rng.choice([0, 0, 40, 130])}
                 sess.step(op)
                 return [op]
